@@ -8,8 +8,10 @@ import (
 	"crypto/sha256"
 	"fmt"
 	"math/big"
+	"sync"
 
 	"github.com/piotrnar/gocoin/lib/btc"
+	"github.com/piotrnar/gocoin/lib/chain"
 	"os"
 	"strings"
 	"time"
@@ -119,6 +121,18 @@ func (c *ctx) simpleSpend(version, locktime uint32, seqs []uint32, outsF func(in
 }
 
 var probes []probe
+
+// transactions chain.TrustedTxChecker vouches for (installed in Child)
+var (
+	vouchMu sync.Mutex
+	vouched = map[refchain.Hash]bool{}
+)
+
+func vouch(id refchain.Hash) {
+	vouchMu.Lock()
+	vouched[id] = true
+	vouchMu.Unlock()
+}
 
 func reg(name, prop string, expect []string, f func(c *ctx) *refchain.Block) {
 	probes = append(probes, probe{name, prop, expect, f})
@@ -321,6 +335,10 @@ func init() {
 	})
 	reg("weight/4000001-with-witness", "C05", []string{"bad-blk-weight"}, func(c *ctx) *refchain.Block { return weightWitnessBlock(c, 4000001) })
 	reg("valid/weight-4000000-with-witness", "C05", valid, func(c *ctx) *refchain.Block { return weightWitnessBlock(c, 4000000) })
+	// the same boundary with 260 transactions: the transaction count then takes three bytes in the block, which are part
+	// of what is weighed (a block that reaches the node header-first is weighed on an object that knew no count before)
+	reg("weight/4000004-with-260-txs", "C05", []string{"bad-blk-weight"}, func(c *ctx) *refchain.Block { return weightManyTxBlock(c, 4000004, 260) })
+	reg("valid/weight-4000000-with-260-txs", "C05", valid, func(c *ctx) *refchain.Block { return weightManyTxBlock(c, 4000000, 260) })
 	reg("weight/4000004", "C05", []string{"bad-blk-weight"}, func(c *ctx) *refchain.Block { return weightBlock(c, 4000004) })
 	reg("weight/4000000-valid", "C05", valid, func(c *ctx) *refchain.Block { return weightBlock(c, 4000000) })
 	// valid neighbours (they extend the chain)
@@ -596,6 +614,30 @@ func init() {
 	reg("valid/sigops-native-p2wsh-80000", "C04", valid, func(c *ctx) *refchain.Block { return spentSigops(c, "p2wsh", 80000) })
 	reg("sigops/nested-p2sh-p2wsh-80001", "C04", []string{"bad-blk-sigops"}, func(c *ctx) *refchain.Block { return spentSigops(c, "nested", 80001) })
 	reg("valid/sigops-nested-p2sh-p2wsh-80000", "C04", valid, func(c *ctx) *refchain.Block { return spentSigops(c, "nested", 80000) })
+	// chain.TrustedTxChecker, as the client's txpool installs it, vouches for a transaction it has verified itself: no
+	// script verifier is started for that transaction - and for that one only
+	vouchedPair := func(c *ctx, badSecond bool) *refchain.Block {
+		ops, cs := c.take(2)
+		if ops == nil {
+			return nil
+		}
+		a := c.g.Spend(ops[:1], cs[:1], []refchain.TxOut{c.g.OutTrue(cs[0].Value - 7)}, 1, 0, nil, -1)
+		bad := -1
+		if badSecond {
+			bad = 0
+		}
+		b := c.g.Spend(ops[1:], cs[1:], []refchain.TxOut{c.g.OutTrue(cs[1].Value - 7)}, 1, 0, nil, bad)
+		vouch(a.TxID())
+		txs := []*refchain.Tx{a, b}
+		if c.r.Bool() { // more unvouched transactions behind
+			if o3, c3 := c.take(1); o3 != nil {
+				txs = append(txs, c.g.Spend(o3, c3, []refchain.TxOut{c.g.OutTrue(c3[0].Value - 7)}, 1, 0, nil, -1))
+			}
+		}
+		return c.blockWith(txs, uint64(7*len(txs)), chainsim.BlockSpec{})
+	}
+	reg("script/invalid-input-behind-a-vouched-tx", "C04", []string{"mandatory-script-verify-flag-failed"}, func(c *ctx) *refchain.Block { return vouchedPair(c, true) })
+	reg("valid/vouched-tx-then-unvouched-ones", "C04", valid, func(c *ctx) *refchain.Block { return vouchedPair(c, false) })
 	reg("script/invalid-input", "C04", []string{"mandatory-script-verify-flag-failed"}, func(c *ctx) *refchain.Block {
 		var txs []*refchain.Tx
 		var fees uint64
@@ -919,6 +961,53 @@ func weightBlock(c *ctx, target int) *refchain.Block {
 	return nil
 }
 
+// weightManyTxBlock: an in-block chain of ntx small transactions (each spends the previous one's anyone-can-spend output)
+// under a coinbase padded to the exact weight.
+func weightManyTxBlock(c *ctx, target, ntx int) *refchain.Block {
+	var op refchain.OutPoint
+	var co refchain.Coin
+	found := false
+	for i, a := range c.avail {
+		if k, _ := c.g.KindOf(c.view[a].Script); k == chainsim.KTrue && c.view[a].Value > 1000000 {
+			op, co, found = a, c.view[a], true
+			c.avail[i] = c.avail[len(c.avail)-1]
+			c.avail = c.avail[:len(c.avail)-1]
+			break
+		}
+	}
+	if !found {
+		return nil
+	}
+	var txs []*refchain.Tx
+	var fees uint64
+	for i := 0; i < ntx; i++ {
+		t := c.g.Spend([]refchain.OutPoint{op}, []refchain.Coin{co}, []refchain.TxOut{c.g.OutTrue(co.Value - 10)}, 1, 0, nil, -1)
+		txs = append(txs, t)
+		fees += 10
+		op = refchain.OutPoint{Hash: t.TxID(), Idx: 0}
+		co = refchain.Coin{Value: co.Value - 10, Script: t.Out[0].Script, Height: c.height}
+	}
+	mk := func(pad int) *refchain.Block {
+		scr := make([]byte, pad)
+		scr[0] = 0x6a
+		outs := []refchain.TxOut{{Value: refchain.Subsidy(c.height) + fees, Script: []byte{0x51}}, {Value: 0, Script: scr}}
+		return c.blockWith(txs, fees, chainsim.BlockSpec{CoinbaseOuts: outs, NoCommitment: true})
+	}
+	pad := 900000
+	for try := 0; try < 6; try++ {
+		b := mk(pad)
+		d := target - b.Weight()
+		if d == 0 {
+			return b
+		}
+		if d%4 != 0 {
+			return nil
+		}
+		pad += d / 4
+	}
+	return nil
+}
+
 // weightWitnessBlock hits an exact block weight that is not a multiple of 4: the coinbase carries a
 // large unspendable output (4 weight units per byte) and a witness commitment, a transaction created
 // in the block pays to P2WSH(<push n bytes> OP_DROP OP_1) and the next one spends it, so the witness
@@ -1119,6 +1208,13 @@ func Child(prop string, seed int64, tier string, cfgName string, stateFile strin
 	s := chainsim.NewSim(run, r, p, dir, chainsim.NodeOpts{CompressUTXO: cfg.Compress, HeaderFirst: cfg.HeaderFirst})
 	defer s.Close()
 	g := s.G
+	chain.TrustedTxChecker = func(tx *btc.Tx) bool {
+		var h refchain.Hash
+		copy(h[:], tx.Hash.Hash[:])
+		vouchMu.Lock()
+		defer vouchMu.Unlock()
+		return vouched[h]
+	}
 	if cfg.Retarget {
 		runRetarget(run, s, r, cfg)
 		return
